@@ -310,7 +310,8 @@ class C25(Property):
         rng = ctx.rng
         plan = []
         # boundary corpus first: one nasty thing at a time, on each path
-        for s in ["a b", "$HOME", "`id`", 'q"uote', "a'b", "back\\slash", "new\nline", "st*r", "semi;colon", "日本 😀"]:
+        corpus = ["a b", "$HOME", "`id`", 'q"uote', "a'b", "back\\slash", "new\nline", "st*r", "semi;colon", "日本 😀"]
+        for s in (corpus if ctx.tier == "thorough" or ctx.mode == "search" else corpus[:6]):
             for kind in ("shell", "local", "qm"):
                 plan.append((kind, dir_name(rng, False), {"K": s}))
             plan.append(("shell", s.replace("/", "_"), {"K": "v"}))
@@ -600,10 +601,10 @@ class C25(Property):
         l2, e2, m2 = self.framing_cases(ctx, 400 if big else 90)
         lines, expect, meta = lines + l2, expect + e2, meta + m2
         self.lexer_cases(ctx, 1500 if big else 250)
-        self.exec_cases(ctx, 300 if big else 45)
-        l3, e3, m3 = self.policy_cases(ctx, 12 if big else 4, 4 if big else 2)
+        self.exec_cases(ctx, 300 if big else 24)
+        l3, e3, m3 = self.policy_cases(ctx, 12 if big else 3, 4 if big else 2)
         lines, expect, meta = lines + l3, expect + e3, meta + m3
-        self.output_cases(ctx, 40 if big else 10)
+        self.output_cases(ctx, 40 if big else 6)
         got = ctx.lean("Drivers/C25.lean", lines)
         for g, e, m in zip(got, expect, meta):
             if g != e:
